@@ -41,9 +41,18 @@ def f32a(a):
   return np.asarray(a, dtype=np.float32)
 
 
+def _fv(v):
+  v = float(v)
+  if v != v:
+    return F(10) ** 41            # nan / inf never occur on the unchanged tree: sentinels that
+  if v in (float("inf"), float("-inf")):
+    return F(10) ** 40 * (1 if v > 0 else -1)   # make a comparison fail instead of crashing
+  return F(v)
+
+
 def fr(a):
   """flattened exact rationals of an array (float32/float64 values are exact)"""
-  return [F(float(v)) for v in np.asarray(a, dtype=np.float64).ravel()]
+  return [_fv(v) for v in np.asarray(a, dtype=np.float64).ravel()]
 
 
 def enc(a):
@@ -252,7 +261,7 @@ def canon_dict(d, model, w_before):
       neg_inf.append([bool(v) for v in np.isneginf(a)])
       if np.any(np.isinf(a)):
         a = np.where(np.isinf(a), 0.0, a)      # log2(0) = -inf: canonicalised to 0, mask kept
-      hw.append([F(float(v)) for v in a])
+      hw.append([_fv(v) for v in a])
     ent = {"i": i, "hw": hw, "neg_inf": neg_inf, "enable": bool(e["enable_bn_fusing"]),
            "signs": None, "scales": None, "pool": None, "fused_bn": None, "bn_inv": None,
            "fused_bias": None,
@@ -273,7 +282,7 @@ def canon_dict(d, model, w_before):
             sc.append(fr(s))
       ent["scales"] = sc
     if "q_mult_factor" in e:
-      ent["pool"] = [F(float(e["q_mult_factor"])), F(float(e["mult_factor"])), F(float(e["pool_area"]))]
+      ent["pool"] = [_fv(e["q_mult_factor"]), _fv(e["mult_factor"]), _fv(e["pool_area"])]
     if "fused_bn_layer_name" in e:
       ent["fused_bn"] = names[e["fused_bn_layer_name"]]
       ent["bn_inv"] = fr(e["bn_inv"])
@@ -749,7 +758,7 @@ def build_cases(rng, tier):
   add("QConv2DBatchnorm[po2,fx]", {"cls": "folded", "kq": "po2"}, mk_folded("po2", "fx"))
   add("chain(conv+bn,dw+bn,dense)", {"cls": "chain"}, mk_chain())
   # -- seeded random extras
-  n_extra = 10 if tier == "quick" else 80
+  n_extra = 10 if tier == "quick" else 300
   for j in range(n_extra):
     t = int(rng.integers(0, 5))
     kq = kqs[int(rng.integers(0, len(kqs) - 1))]      # fxa2 only in the fixed list
@@ -1139,7 +1148,7 @@ def _freeze_route(run, rng, tier, judge_lines, judge_meta):
   from qkeras import utils as qutils
   from qkeras import QConv2D, QDepthwiseConv2D, QDense, QBatchNormalization, QActivation, quantized_bits
   K = tf.keras
-  n = 3 if tier == "quick" else 12
+  n = 3 if tier == "quick" else 30
   for j in range(n):
     tf.keras.backend.clear_session()
     b1, b2, b3 = (int(v) for v in rng.integers(3, 7, size=3))
